@@ -39,7 +39,7 @@ static void one_case(void) {
   /* textbook forward substitution with a unit diagonal: x_i = b_i - sum_{j<i} M(i,j) x_j */
   for (i = 0; i < N; i++) {
     @T@ s = g_b[i];
-    for (j = 0; j < i; j++) s = s - g_Mobj[i + j * LD] * g_ref[j];
+    for (j = 0; j < i; j++) s = s - g_ref[j] * g_Mobj[i + j * LD];      /* same operand order as the routine (x_j * M(i,j)) */
     g_ref[i] = s;
   }
 #endif
@@ -56,7 +56,7 @@ static void one_case(void) {
 #if VALS
   /* C19: rhs := inv(unit-lower(M)) * rhs, read from the strictly lower triangle only (every other entry of the block is arbitrary) */
   if (N >= 1) ENS(solves_unit_lower, !INSIDE(g_k) || EQ(g_robj[KK], g_ref[KK]));
-  if (in_ncol == NMAX && g_k == NMAX - 1 && g_ref[NMAX - 1] > 100) __CPROVER_assert(0, "canary: last solution entry > 100");
+  if (in_ncol == NMAX && g_k == NMAX - 1 && g_ref[NMAX - 1] > NMAX + 2) __CPROVER_assert(0, "canary: last solution entry outgrows the input domain");
 #else
   if (INSIDE(g_k) && POIS(g_b[KK]) && g_k >= 2) __CPROVER_assert(0, "canary: a NaN in rhs on entry");
 #endif
